@@ -143,6 +143,21 @@ func (u *Unit) call(st *State, x *ast.CallExpr) *Val {
 	if syncBack != nil {
 		defer syncBack()
 	}
+	if fn != nil && recv != nil && recvExpr != nil && u.safety && isIface(recv.T) && u.quiet == 0 {
+		// a method call through a nil interface value panics
+		if sig, ok := fn.Type().(*types.Signature); ok && sig.Recv() != nil && isIface(sig.Recv().Type()) {
+			pkgVar := false
+			if id, isId := ast.Unparen(recvExpr).(*ast.Ident); isId {
+				if obj, isVar := u.info.Uses[id].(*types.Var); isVar && obj.Pkg() != nil && obj.Parent() == obj.Pkg().Scope() {
+					pkgVar = true
+					u.trusted["package-level interface variables are non-nil where a method is called on them (set at package initialisation; reassignment not checked): "+obj.Pkg().Name()+"."+obj.Name()] = true
+				}
+			}
+			if !pkgVar {
+				u.safetyObl(st, "nilcall", x, app("distinct", recv.S, "0"))
+			}
+		}
+	}
 	if fn != nil {
 		name := fullName(fn)
 		if m, ok := models[name]; ok {
@@ -526,6 +541,16 @@ func (u *Unit) pureFunctional(st *State, fn *types.Func, recv *Val, args []*Val,
 func (u *Unit) pureResult(st *State, fn *types.Func, resT types.Type, x *ast.CallExpr) *Val {
 	v := u.callResult(st, resT, fn.Name())
 	n := fullName(fn)
+	// documented never-nil results of the standard library
+	switch n {
+	case "(*net/http.Request).Context", "context.Background", "context.TODO", "context.WithCancel", "context.WithTimeout", "context.WithDeadline", "context.WithValue", "context.WithoutCancel", "(*net/http.Request).WithContext":
+		u.trusted["std-lib: context constructors and (*http.Request).Context/WithContext never return nil"] = true
+		if len(v.Tuple) > 0 {
+			st.assumeFact(app("distinct", v.Tuple[0].S, "0"))
+		} else if v.S != "" {
+			st.assumeFact(app("distinct", v.S, "0"))
+		}
+	}
 	// constructors of errors never return nil
 	if n == "fmt.Errorf-unmodelled" {
 		st.assumeFact(app("distinct", v.S, "0"))
